@@ -67,6 +67,10 @@ func corpus() []*lang.Node {
 		C(S("collection"), I(1)), C(S("call")), C(S("call"), S("zero")), C(S("call"), S("add"), I(1), I(2)),
 		C(C(S("call")), S("add"), I(1)), C(C(S("call")), S("add"), I(1), I(2)), C(S("call"), S("add"), I(1), I(2), I(3)),
 		C(S("call1"), S("collection"), C(S("pair"), I(1), I(2))), C(S("call"), L([]string{"x"}, S("x")), I(5)),
+		// seeded C21-4: the partial of a native higher-order builtin holds a lambda capturing x; the maker runs
+		// again before the partial is completed (101, not 102)
+		C(L([]string{"g"}, C(L([]string{"p1", "p2"}, C(S("call1"), S("p1"), S("force"))), C(S("call1"), S("g"), I(1)), C(S("call1"), S("g"), I(2)))),
+			L([]string{"x"}, C(S("call1"), L(nil, C(S("add"), S("x"), I(100)))))),
 		// fixed C21-convert-interface-query: a query out of a function returning interface{} used as a function
 		C(S("call"), C(S("first"), C(S("pair"), lang.QL(&lang.Q{Op: "keyed", A: "a"}), I(1)))),
 	}
@@ -88,6 +92,60 @@ func program(req string) (*lang.Node, map[string]bool, string) {
 	return nil, nil, ""
 }
 
+// nativePartialTemplate: a partial application of a NATIVE higher-order builtin (call1 / call2) whose bound
+// argument is a lambda capturing the parameter x of the enclosing "maker" lambda; the maker is invoked 2..3
+// times with different arguments, and only afterwards one (or two) of the partials are completed — with a
+// native function (force, call1) or a lambda that ends up calling the captured lambda.  The registers the
+// captured lambda reads are the snapshot partialCall.CallFromStack swaps in (seeded change C21-4).
+func nativePartialTemplate(r *hx.Rand) (*lang.Node, map[string]bool) {
+	S, I, C, L := lang.S, lang.I, lang.C, lang.L
+	feat := map[string]bool{"native-partial-capture": true, "lambda": true, "nested-lambda": true, "partial": true}
+	op := r.Pick([]string{"add", "sub"})
+	k := r.Intn(9)
+	var maker *lang.Node
+	var complete func(p *lang.Node) *lang.Node
+	switch r.Intn(4) {
+	case 0: // (call1 {-> op x k}) … force
+		feat["native-partial:call1-thunk-force"] = true
+		maker = L([]string{"x"}, C(S("call1"), L(nil, C(S(op), S("x"), I(k)))))
+		complete = func(p *lang.Node) *lang.Node { return C(S("call1"), p, S("force")) }
+	case 1: // (call2 {y -> op y x} k) … call1
+		feat["native-partial:call2-lambda-call1"] = true
+		maker = L([]string{"x"}, C(S("call2"), L([]string{"y"}, C(S(op), S("y"), S("x"))), I(k)))
+		complete = func(p *lang.Node) *lang.Node { return C(S("call1"), p, S("call1")) }
+	case 2: // (call1 {y -> op x y}) … {h -> call1 h k}
+		feat["native-partial:call1-lambda-lambda"] = true
+		maker = L([]string{"x"}, C(S("call1"), L([]string{"y"}, C(S(op), S("x"), S("y")))))
+		complete = func(p *lang.Node) *lang.Node {
+			return C(S("call1"), p, L([]string{"h"}, C(S("call1"), S("h"), I(k))))
+		}
+	default: // (call2 {-> x} {y -> op y x}) … {t f -> call1 f (force t)}
+		feat["native-partial:call2-two-lambdas"] = true
+		maker = L([]string{"x"}, C(S("call2"), L(nil, S("x")), L([]string{"y"}, C(S(op), S("y"), S("x")))))
+		complete = func(p *lang.Node) *lang.Node {
+			return C(S("call1"), p, L([]string{"t", "f"}, C(S("call1"), S("f"), C(S("force"), S("t")))))
+		}
+	}
+	n := 2 + r.Intn(2)
+	ps := make([]string, n)
+	made := make([]*lang.Node, n)
+	base := r.Intn(20)
+	for i := range ps {
+		ps[i] = fmt.Sprintf("p%d", i+1)
+		made[i] = C(S("call1"), S("g"), I(base+1+i*(1+r.Intn(3)))) // different arguments
+	}
+	var use *lang.Node
+	switch r.Intn(3) {
+	case 0:
+		use = complete(S(ps[0])) // the earliest partial, completed after the later invocations
+	case 1:
+		use = complete(S(ps[r.Intn(n)]))
+	default:
+		use = C(S("pair"), complete(S(ps[r.Intn(n)])), complete(S(ps[r.Intn(n)])))
+	}
+	return C(L([]string{"g"}, C(L(ps, use), made...)), maker), feat
+}
+
 func generate(r *hx.Rand) (*lang.Node, map[string]bool, string) {
 	g := &lang.Gen{R: r, Budget: 4 + r.Intn(22)}
 	g.Variadic = r.Chance(1, 4) // the real variadic collection / call (Builtin.collection, Builtin.call)
@@ -102,6 +160,9 @@ func generate(r *hx.Rand) (*lang.Node, map[string]bool, string) {
 			p = lang.C(lang.C(lang.L(p.Fn.Params[:k], inner), p.Args[:k]...), p.Args[k:]...)
 		}
 		return p, g.Feat, ""
+	case 3: // partials of native higher-order builtins holding capturing lambdas, completed after re-entry
+		p, feat := nativePartialTemplate(r)
+		return p, feat, ""
 	case 1, 2: // closures made by one lambda called several times, used afterwards
 		g.Feat = map[string]bool{"closure-template": true, "lambda": true, "nested-lambda": true}
 		op := r.Pick([]string{"add", "sub", "mix"})
@@ -170,7 +231,7 @@ func main() {
 	defer worker.Close()
 	hx.Main(hx.Family{
 		Name:     "c21",
-		Rule:     "programs (<= ~25 nodes) generated type-directed over int/pair/higher-order builtins: calls, lambdas (nested, shadowing, called directly, passed, returned), partial applications at several levels, calls of calls, pipelines; 1 in 4 with the real variadic functions (collection values, call f args…); 1 in 25 a call without arguments of any builtin at the root / as an argument; 1 in 4 gets one ill-typing edit (replace / drop / add / swap argument, unbound symbol, literal as function); templates for the MaxArgs boundary and for closures outliving their activation. non-trivial = contains a lambda, a partial application, a call of a call or >= 29 parameters; distinct = by hash of the program text",
+		Rule:     "programs (<= ~25 nodes) generated type-directed over int/pair/higher-order builtins: calls, lambdas (nested, shadowing, called directly, passed, returned), partial applications at several levels, calls of calls, pipelines; 1 in 4 with the real variadic functions (collection values, call f args…); 1 in 25 a call without arguments of any builtin at the root / as an argument; 1 in 4 gets one ill-typing edit (replace / drop / add / swap argument, unbound symbol, literal as function); templates for the MaxArgs boundary, for closures outliving their activation, and for partial applications of native higher-order builtins that hold a capturing lambda and are completed after the enclosing lambda ran again. non-trivial = contains a lambda, a partial application, a call of a call or >= 29 parameters; distinct = by hash of the program text",
 		Quick:    4000,
 		Thorough: 60000,
 		Corpus: func(c *hx.Ctx) {
